@@ -63,6 +63,12 @@ def build_harness(race=False):
     # the harness module needs the repository's go.sum
     shutil.copyfile(os.path.join(REPO, "go.sum"), os.path.join(hdir, "go.sum"))
     env = go_env()
+    # the harness module replaces the library by the tree under test (/repo unless VERIF_REPO is set,
+    # which background runs on a snapshot use)
+    want = f"replace github.com/cilium/statedb => {REPO}"
+    gm = open(os.path.join(hdir, "go.mod")).read()
+    if want not in gm:
+        subprocess.run([find_go(), "mod", "edit", f"-replace=github.com/cilium/statedb={REPO}"], cwd=hdir, env=env, check=True)
     cmd = [find_go(), "test", "-c", "-tags", "verif", "-o", out]
     if race:
         env["CGO_ENABLED"] = "1"
